@@ -532,3 +532,44 @@ Definition read_chunk (unzip : list Z -> list Z) (nc : nat) (stream offsets boun
   : list (list Z) :=
   decode_chunk unzip (Z.to_nat (nth (S k) bounds 0 - nth k bounds 0)) nc
     (zslice stream (nth k offsets 0) (nth (S k) offsets 0)).
+
+(* ====================================================================== *)
+(* Part F — file names: pathlib's with_suffix and the names compress_file publishes *)
+(* ====================================================================== *)
+(* A file name is a list of character codes; 46 is '.'.
+   PurePath.suffix: i = name.rfind('.'); the suffix is name[i:] if 0 < i < len(name) - 1, else ''.
+   PurePath.with_suffix(s): name[:-len(suffix)] + s   (name + s when there is no suffix). *)
+Definition dot : Z := 46.
+
+(* split at the last '.': Some (before, after) — None if there is no '.' *)
+Fixpoint split_last_dot (name : list Z) : option (list Z * list Z) :=
+  match name with
+  | [] => None
+  | c :: rest =>
+      match split_last_dot rest with
+      | Some (a, b) => Some (c :: a, b)
+      | None => if c =? dot then Some ([], rest) else None
+      end
+  end.
+
+Definition name_stem (name : list Z) : list Z :=
+  match split_last_dot name with
+  | Some (a, b) => match a, b with
+                   | [], _ | _, [] => name          (* leading dot / trailing dot: no suffix *)
+                   | _, _ => a
+                   end
+  | None => name
+  end.
+
+(* with_suffix(name, "." ++ ext) *)
+Definition with_suffix (name ext : list Z) : list Z := name_stem name ++ dot :: ext.
+
+(* compress_file (tree at 746882f..4667666), for the source name x:
+     file_tmp = x.with_suffix(".cbin_tmp"); ch_tmp = x.with_suffix(".ch_tmp")
+     ch_tmp.rename(x.with_suffix(".ch")); file_tmp.rename(file_tmp.with_suffix(".cbin"))
+   ext arguments are the character codes of cbin_tmp, ch_tmp, cbin, ch *)
+Definition published_names (x e_cbin_tmp e_ch_tmp e_cbin e_ch : list Z)
+  : list Z * list Z * list Z * list Z :=
+  let file_tmp := with_suffix x e_cbin_tmp in
+  let ch_tmp := with_suffix x e_ch_tmp in
+  (file_tmp, ch_tmp, with_suffix file_tmp e_cbin, with_suffix x e_ch).
